@@ -58,7 +58,15 @@ pub fn streams_blocked_frame_with_dir(
     dir: Dir,
 ) -> impl Fn(&[u8]) -> nom::IResult<&[u8], StreamsBlockedFrame> {
     move |input: &[u8]| {
-        let (input, max_streams) = be_varint(input)?;
+        let (remain, max_streams) = be_varint(input)?;
+        // RFC 9000 §19.14: a value above 2^60 MUST be treated as STREAM_LIMIT_ERROR or FRAME_ENCODING_ERROR
+        if max_streams.into_u64() > (1 << 60) {
+            return Err(nom::Err::Error(nom::error::Error::new(
+                input,
+                nom::error::ErrorKind::TooLarge,
+            )));
+        }
+        let input = remain;
         Ok((
             input,
             match dir {
